@@ -1,0 +1,11 @@
+//go:build verif
+
+// Contracts for the deductive verifier in /verif (govc). Only compiled with -tags verif.
+
+package overlord
+
+// ---- C06: the state file is only ever written through the atomic write helper --------------------
+//@ func (*overlordStateBackend).Checkpoint
+//@   props C06
+//@   guard call osutil.AtomicWriteFile: [state-file-complete-data] arg0 == osb.path && arg1 == data
+//@   ensures [only-atomic] !called("os.WriteFile") && !called("os.Create") && !called("os.OpenFile") && !called("os.Rename") && !called("os.Truncate")
